@@ -15,42 +15,52 @@ def aff3Of (a : Ivg.Gen.Aff3 F32) : Vector F32 6 := #v[a.a0, a.a1, a.a2, a.a3, a
 /-- the model matrix of a Go `Aff3` array -/
 def aff3To (a : Vector F32 6) : Ivg.Gen.Aff3 F32 := ⟨a[0], a[1], a[2], a[3], a[4], a[5]⟩
 
+tolerant
 @[simp] theorem aff3To_aff3Of (a : Ivg.Gen.Aff3 F32) : aff3To (aff3Of a) = a := rfl
+tolerant
 @[simp] theorem aff3Of_aff3To (a : Vector F32 6) : aff3Of (aff3To a) = a := by
   ext i hi
   simp only [aff3Of, aff3To]
   match i, hi with
   | 0, _ | 1, _ | 2, _ | 3, _ | 4, _ | 5, _ => rfl
 
+tolerant
 theorem arrGet_aff3Of (a : Ivg.Gen.Aff3 F32) :
     Go.arrGet (aff3Of a) 0 = a.a0 ∧ Go.arrGet (aff3Of a) 1 = a.a1 ∧ Go.arrGet (aff3Of a) 2 = a.a2 ∧
     Go.arrGet (aff3Of a) 3 = a.a3 ∧ Go.arrGet (aff3Of a) 4 = a.a4 ∧ Go.arrGet (aff3Of a) 5 = a.a5 :=
   ⟨rfl, rfl, rfl, rfl, rfl, rfl⟩
 
+tolerant
 /-- generate.go `MulAff3` -/
 theorem mulAff3_code_tie (x y : F32) (a : Ivg.Gen.Aff3 F32) :
     generate_MulAff3 x y (aff3Of a) = Ivg.Gen.mulAff3 x y a := by
   obtain ⟨h0, h1, h2, h3, h4, h5⟩ := arrGet_aff3Of a
   simp only [generate_MulAff3, Ivg.Gen.mulAff3, h0, h1, h2, h3, h4, h5]
 
+tolerant
 /-- generate.go `MulAff3`, from the Go array -/
 theorem mulAff3_code_tie' (x y : F32) (a : Vector F32 6) :
     generate_MulAff3 x y a = Ivg.Gen.mulAff3 x y (aff3To a) := by
   rw [← mulAff3_code_tie, aff3Of_aff3To]
 
+tolerant
 /-- the model's `translate` with its (private) integer constants spelled out -/
 theorem translate_eq (x y : F32) :
     Ivg.Gen.translate x y = ⟨Arith.ofInt 1, Arith.ofInt 0, x, Arith.ofInt 0, Arith.ofInt 1, y⟩ := rfl
+tolerant
 theorem scale2_eq (sx sy : F32) :
     Ivg.Gen.scale2 sx sy = ⟨sx, Arith.ofInt 0, Arith.ofInt 0, Arith.ofInt 0, sy, Arith.ofInt 0⟩ := rfl
+tolerant
 theorem identity_eq :
     (Ivg.Gen.Aff3.identity : Ivg.Gen.Aff3 F32) =
       ⟨Arith.ofInt 1, Arith.ofInt 0, Arith.ofInt 0, Arith.ofInt 0, Arith.ofInt 1, Arith.ofInt 0⟩ := rfl
 
+tolerant
 /-- generate.go `Translate` -/
 theorem translate_code_tie (x y : F32) : generate_Translate x y = aff3Of (Ivg.Gen.translate x y) := by
   simp only [generate_Translate, translate_eq, aff3Of, f32_ofInt_one, f32_ofInt_zero]
 
+tolerant
 /-- generate.go `Scale(v ...float32)`: the model has the two-argument `scale2` (and `Aff3.identity`); the variadic Go
     function is `identity` for no argument, `scale2 s s` for one, `scale2 s t` for two or more (the rest is ignored) -/
 theorem scale_code_tie (v : List F32) :
